@@ -13,12 +13,16 @@ import (
 	"verifharness/sgc"
 	"verifharness/vt"
 
+	"github.com/sdcio/yang-parser/compile"
 	"pgregory.net/rapid"
 )
 
 type Case struct {
 	Mods  []*sg.Mod  `json:"mods"`
 	Paths [][]string `json:"paths"`
+	// CfgOnly: the schema is compiled with the configuration-only filter (what a configuration datastore uses); the
+	// paths are then walked on the tree without its config false nodes
+	CfgOnly bool `json:"cfgonly,omitempty"`
 }
 
 type vctx struct{ incomplete bool }
@@ -227,7 +231,9 @@ func randomPath(g *sg.G, w *world) []string {
 
 func genCase(t *rapid.T) Case {
 	g := &sg.G{T: t, Cfg: sg.GenCfg{MaxMods: 2, NoFeatures: true, NoWhenMust: true, NoRpcs: true}}
-	c := Case{Mods: g.GenSet()}
+	cfgOnly := g.Chance(1, 4, "cfgonly")
+	g.Cfg.ConfigFalse = cfgOnly
+	c := Case{Mods: g.GenSet(), CfgOnly: cfgOnly}
 	// status on some nodes, choices and cases included (weakening only): a deprecated or obsolete node is a node of the
 	// schema like any other
 	var st func(kids []*sg.Node, above string)
@@ -378,6 +384,20 @@ func newWorld(mods []*sg.Mod) *world {
 	return w
 }
 
+// pruneState removes the config false nodes (with everything below them).
+func pruneState(kids []*sg.Node) []*sg.Node {
+	var out []*sg.Node
+	for _, k := range kids {
+		if k.Config == "false" {
+			continue
+		}
+		cp := *k
+		cp.Kids = pruneState(k.Kids)
+		out = append(out, &cp)
+	}
+	return out
+}
+
 func pathstr(toks []string) string {
 	var b strings.Builder
 	for _, t := range toks {
@@ -393,7 +413,15 @@ func checkCase(c Case) fw.Outcome {
 		out.Skip = true
 		return out
 	}
-	res := sgc.Compile(c.Mods, sgc.Opts{Features: sgc.AllFeatures{}})
+	copts := sgc.Opts{Features: sgc.AllFeatures{}}
+	if c.CfgOnly {
+		copts.Filter = compile.IsConfig
+		for _, m := range w.inl {
+			m.Nodes = pruneState(m.Nodes)
+		}
+		out.Labels = append(out.Labels, "config-only")
+	}
+	res := sgc.Compile(c.Mods, copts)
 	var texts []string
 	for _, m := range c.Mods {
 		texts = append(texts, m.Text())
